@@ -43,7 +43,7 @@ def rebuild_case(draw, tier, prepopulate=False, partial_decoys=False):
                 # 'all': every byte differs (C14's decoy); the partial kinds agree with the real file in some pieces
                 e["decoy_kind"] = draw(st.sampled_from(["all", "all", "all", "same-first-piece", "same-tail", "one-byte"])) if partial_decoys else "all"
             if prepopulate:
-                e["pre"] = draw(st.sampled_from(["none", "none", "correct", "wrong-full", "shorter", "shorter-wrong", "sparse-full"]))
+                e["pre"] = draw(st.sampled_from(["none", "none", "correct", "wrong-full", "shorter", "shorter-wrong", "sparse-full", "dir-in-the-way"]))
                 if e["decoy"] is not None:
                     # the intact copy may be missing altogether: only the decoy carries the name (C14 must hold then, too)
                     e["real_absent"] = draw(st.sampled_from([True] + [False] * 3))
@@ -54,7 +54,9 @@ def rebuild_case(draw, tier, prepopulate=False, partial_decoys=False):
             "unrelated": [{"place": p, "name": n, "size": s} for p, n, s in unrelated],
             "order": draw(st.sampled_from([0, 1, 2, 3, 5, 8])),
             "metafiles_as_dir": draw(st.booleans()),
-            "dest_via_symlink": draw(st.sampled_from([False, False, False, True]))}
+            "dest_via_symlink": draw(st.sampled_from([False, False, False, True])),
+            # how the destination is named on the call: absolute, relative to its parent, or "." from inside it
+            "dest_spelling": draw(st.sampled_from(["abs", "abs", "abs", "abs", "rel", "dot"]))}
     if prepopulate:
         case["repeats"] = draw(st.integers(1, 3))
         # between two rebuilds: a source file is replaced in place by its every-byte-different decoy (same size, old
@@ -158,6 +160,14 @@ def run_rebuild(layout, case, dest):
     """Run Assembler under the drawn enumeration order; returns (count, exception)."""
     mfs = [layout["metadir"]] if case["metafiles_as_dir"] else list(layout["metafiles"])
     asm = None
+    old_cwd = os.getcwd()
+    sp = case.get("dest_spelling", "abs")
+    if sp == "dot":
+        os.chdir(dest)
+        dest = "."
+    elif sp == "rel":
+        os.chdir(os.path.dirname(dest))
+        dest = os.path.basename(dest)
     try:
         with target.quiet(), listdir.ListdirOrder(case["order"]):
             asm = target.rebuild.Assembler(mfs, list(layout["search"]), dest)
@@ -170,6 +180,8 @@ def run_rebuild(layout, case, dest):
         import gc
         gc.collect()
         return None, e
+    finally:
+        os.chdir(old_cwd)
 
 
 def listed_files(m):
